@@ -74,6 +74,29 @@ def run_case(case):
             got = "err"
         if got != want:
             out.append(f"evaluation of {o} (ctx={step.get('ctx')}) returned {got!r}, expected {want!r}")
+        if step.get("ctx") == "cache":
+            # nested inside logging.disabled(): the cache-disabled context must keep the enclosing handlers (derived with handle())
+            import logging as _pl
+            records = []
+
+            class H(_pl.Handler):
+                def emit(self, r):
+                    records.append(r)
+            h = H()
+            lg = _pl.getLogger()
+            old = lg.level
+            lg.addHandler(h); lg.setLevel(_pl.DEBUG)
+            try:
+                with ll.disabled():
+                    with lc.disabled():
+                        try:
+                            d(o)
+                        except Exception:  # noqa
+                            pass
+            finally:
+                lg.removeHandler(h); lg.setLevel(old)
+            if records:
+                out.append(f"logging.disabled() outside cache.disabled(): {len(records)} log records were emitted")
         if cache_off and calls["backend"] != before["backend"]:
             out.append(f"caching disabled for {o} (ctx={step.get('ctx')}) but evaluate() reached the cache backend")
         if cache_off and "A" in o and calls["body"] != before["body"] + 1:
